@@ -19,6 +19,7 @@ type GenCfg struct {
 	Ladder    int  // 1/Ladder chance that a string / byte array / small-element array takes a threshold size
 	LadderMax int  // largest ladder size allowed (0 = all)
 	LadderBig int  // one ladder hit in LadderBig is one of the sizes around the 64 KiB multiples
+	Giant     int  // > 0: one array of fixed-width scalars in Giant has about 2^17 elements
 }
 
 // sizeLadder holds lengths around the powers of two where buffers, fast paths and narrow
@@ -173,6 +174,9 @@ func (g *Gen) Type(t schema.Type, budget int) Value {
 		} else if sz := schema.PrimSize(t.Array.Prim); sz > 0 && sz <= 8 {
 			if l, ok := g.ladder(); ok && l <= 300 {
 				n = l // 255/256/257 elements of a small scalar
+			}
+			if g.Cfg.Giant > 0 && g.small == 0 && r.Chance(1, g.Cfg.Giant) {
+				n = 1<<17 - 1 + r.Intn(3)
 			}
 		}
 		isMany := false
